@@ -323,13 +323,14 @@ theorem finish_congr (w : World) (r r' : Req) (axes : List AxisT) (hd : r'.data 
     ← hrel.isRange_getD]
 
 /-- **A buffer does not depend on scalar bounds at axes outside `dimensions_all`** (general form:
-any number of such positions at once). -/
-theorem frbUncached_congr {w : World} (hw : w.wf) (r : Req) (bs' : List Bound)
-    (h : BRel (freeMaskFrom (dimsAll w r) 0 r.bounds) r.bounds bs') :
-    frbUncached w { r with bounds := bs' } = frbUncached w r := by
+any number of such positions at once; the cache id plays no role). -/
+theorem frbUncached_congr' {w : World} (hw : w.wf) (r r' : Req) (hd : r'.data = r.data)
+    (ht : r'.target = r.target) (hwh : r'.what = r.what) (hb : r'.broadcast = r.broadcast)
+    (h : BRel (freeMaskFrom (dimsAll w r) 0 r.bounds) r.bounds r'.bounds) :
+    frbUncached w r' = frbUncached w r := by
   unfold frbUncached
-  simp only [← h.boundsValid_eq]
-  have hax := axesPlain_congr hw r { r with bounds := bs' } rfl rfl h (List.range (w.ndim r.data))
+  simp only [← h.boundsValid_eq, hd]
+  have hax := axesPlain_congr hw r r' hd ht h (List.range (w.ndim r.data))
     (fun k hk p p' hp j hj => prel_agreeOn hp j (by
       simp only [dimsAll, List.mem_flatMap]; exact ⟨k, hk, hj⟩))
   simp only [hax]
@@ -337,6 +338,11 @@ theorem frbUncached_congr {w : World} (hw : w.wf) (r : Req) (bs' : List Bound)
   · rfl
   · split
     · rfl
-    · exact finish_congr w r { r with bounds := bs' } _ rfl rfl rfl rfl h
+    · exact finish_congr w r r' _ hd ht hwh hb h
+
+theorem frbUncached_congr {w : World} (hw : w.wf) (r : Req) (bs' : List Bound)
+    (h : BRel (freeMaskFrom (dimsAll w r) 0 r.bounds) r.bounds bs') :
+    frbUncached w { r with bounds := bs' } = frbUncached w r :=
+  frbUncached_congr' hw r { r with bounds := bs' } rfl rfl rfl rfl h
 
 end GlueVerif.Lemmas.C16
